@@ -481,7 +481,11 @@ def run_c19(ctx):
             filekv = []
         args = []
         if use_cfgfile_arg:
-            cf = os.path.join(d, "custom.toml")
+            # the file given with --config-file only has to exist and be a regular file: its name is free
+            cfname = r.choice(["custom.toml", "custom.toml", "style.cfg", "pasfmt.toml.team", "pasfmtrc", "settings.json",
+                               "my config.ini", "CONF.TOML", "x.yaml"])
+            ctx.bump("config_file_name:" + ("toml" if cfname == "custom.toml" else "other"))
+            cf = os.path.join(d, cfname)
             kind = r.choice(["ok", "ok", "missing", "dir"])
             if kind == "ok":
                 with open(cf, "w") as f:
@@ -508,6 +512,10 @@ def run_c19(ctx):
         ok = rc == 0
         ctx.bump("accepted" if ok else "rejected")
         ctx.bump("depth:%d" % depth)
+        all_documented = all(k in KEYS and v in KEYS[k][0] for k, v in filekv + ovkv)
+        if not ok and all_documented:
+            # the other direction of "unknown keys and ill-typed values are rejected": nothing else is
+            ctx.failures.append({"kind": "oracle", "what": "c19: a configuration whose keys and values are all documented is rejected", "cfg": " ".join(args), "input_hex": "-", "family": "c19"})
         if not ok and after != src:
             ctx.failures.append({"kind": "oracle", "what": "c19: configuration error but the file was modified", "cfg": " ".join(args), "input_hex": "-", "family": "c19"})
         # equal effective configuration specified purely on the command line must give identical output
